@@ -243,6 +243,9 @@ class PairingMonitor:
                         break
                 if set(result.keys()) != set(keys):
                     mon.on_violation("pairing-requirement-constraints", f"evaluate_conditions({keys}) returned the keys {sorted(result.keys())}", {"keys": keys})
+                if world.anomalies:
+                    mon.on_violation("evaluation-context-shared", f"evaluate_conditions({keys}): {world.anomalies[0]} (world {world.id})", {"keys": keys})
+                    world.anomalies.clear()
             return result
 
         async def evaluate_format_constraints(self_, condition_keys):
